@@ -237,6 +237,15 @@ func (x *Exec) runUnit() {
 		x.note("unit has no normally returning path")
 		return
 	}
+	// vacuity probe: some return must be reachable under everything assumed on the way
+	if !x.dry {
+		var pcs []*Term
+		for _, r := range x.unitRets {
+			pcs = append(pcs, r.st.PC)
+		}
+		x.obligs = append(x.obligs, &Oblig{Name: x.unitName + "/vacuity[exit-reachable]", Kind: "vacuity", Unit: x.unitName,
+			Goal: c.Not(c.Or(pcs...)), NAssume: len(x.assumes), Self: -1, Src: "some return is reachable with all assumptions made on the way (expected: sat)"})
+	}
 	// ensures, checked return path by return path (parts of one obligation per clause)
 	_ = vals
 	for _, e := range sp.Ensures {
